@@ -18,9 +18,17 @@ namespace Driver.WF
 
 def b2s (b : Bool) : String := if b then "1" else "0"
 
+/-- `wfNul g` and `wfRank g` with their tables computed once (definitionally the same functions). -/
+def tables (g : NodeGrammar) : (RuleId → Bool) × (RuleId → Nat) :=
+  let nt := nulTable g
+  let nul : RuleId → Bool := fun r => nt.getD r false
+  let rt := rankTable g nul
+  (nul, fun r => rt.getD r 0)
+
+theorem tables_eq (g : NodeGrammar) : tables g = (wfNul g, wfRank g) := rfl
+
 def report (g : NodeGrammar) : String :=
-  let nul := wfNul g
-  let rank := wfRank g
+  let (nul, rank) := tables g
   let a := nulOKb g nul
   let b := noLeftRecb g nul rank
   let c := progressingb g nul
@@ -42,7 +50,7 @@ def run (g : NodeGrammar) (rule entry : String) (input : List Char) : String :=
   | none => "v=norule"
   | some r =>
     let i : Inp := { start := 0, pos := 0, rest := input, after := [] }
-    let fuel := entryFuel g (wfRank g) input.length
+    let fuel := entryFuel g (tables g).2 input.length
     let uni : Uni := fun _ _ => false
     match entry with
     | "parse" => showRes fuel (tryParse g uni fuel r i)
